@@ -31,11 +31,23 @@ POINTS.update({
     "q": {"x": 0.3, "Q2": 10.0},  # nf=4
     "r": {"x": 0.1, "Q2": 30.0},  # nf=5
     "s": {"x": 0.1, "Q2": 10.0},  # nf=4
+    "t": {"x": 0.3, "Q2": 30.0},  # nf=5
 })
 FAMILIES = {
     "ffns": {"base": {"scheme": "FFNS3", "process": "NC"}},
     "zm": {"base": {"scheme": "ZM-VFNS", "process": "NC"}},
+    "zmcc": {"base": {"scheme": "ZM-VFNS", "process": "CC", "projectile": "neutrino"}},
+    "ffnsem": {"base": {"scheme": "FFNS3", "process": "EM"}},
+    "fonll": {"base": {"scheme": "FONLL-FFNS4", "process": "NC", "projectile": "positron"}},
 }
+# H3: designed large cards (many observables x many points, three orderings) per family
+H3_OBS = {
+    "zm": ["F2_total", "FL_total", "F3_total", "g1_total", "F2_charm", "FL_light", "g4_total", "XSHERANC_total", "XSHERANCAVG_light", "F1_total"],
+    "zmcc": ["F2_total", "FL_total", "F3_total", "F2_charm", "F3_charm", "FL_light", "XSCHORUSCC_total", "XSNUTEVCC_charm", "FW_total"],
+    "ffnsem": ["F2_total", "FL_total", "g1_total", "F2_charm", "FL_charm", "F2_light", "F2_bottom", "XSHERANCAVG_total", "F1_charm"],
+    "fonll": ["F2_total", "FL_total", "F3_total", "F2_bottom", "F2_charm", "XSHERANC_total"],
+}
+H3_POINTS = ["p", "q", "r", "s", "q", "t"]  # incl. a duplicate; n_f = 3,4,5 ; two x values
 Y = 0.5
 U_QUICK = ["F2_total", "FL_total", "XSHERANC_total"]
 U_THOROUGH = ["F2_total", "FL_total", "XSHERANC_total", "F3_total", "g1_total", "XSCHORUSCC_charm", "F2_charm"]
@@ -65,7 +77,7 @@ def _pt(name, xs):
 
 
 def _is_xs(o):
-    return o.startswith("XS")
+    return o.startswith("XS") or o.split("_")[0] in ("F1", "FW", "g5")
 
 
 def states(tier, seed):
@@ -116,6 +128,14 @@ def states(tier, seed):
             for pl in plz:
                 out.append({"h": "H1", "fam": "zm", "pto": 2, "tmc": 0, "card": [[o, pl]]})
         out.append({"h": "H1", "fam": "zm", "pto": 2, "tmc": 0, "card": [["FL_light", ["r"]], ["F2_total", ["q", "p"]]]})
+    # H3: designed large cards
+    for fam in H3_OBS:
+        for tmc in (0, 1):
+            for pto in ([1] if tier == "quick" else [1, 2]):
+                if fam == "ffnsem" and pto == 2:
+                    continue
+                for ordering in ("asc", "desc", "interleaved"):
+                    out.append({"h": "H3", "fam": fam, "tmc": tmc, "pto": pto, "ordering": ordering})
     # H2
     depth = 3 if tier == "quick" else 4
     menu = h2_menu(tier)
@@ -165,10 +185,32 @@ def _reference(o, pname, tmc, pto, fam="ffns"):
 
 
 def execute(st):
+    if st["h"] == "H3":
+        return _h3(st)
     return _h1(st) if st["h"] == "H1" else _h2(st)
 
 
-def _h1(st):
+def _h3(st):
+    fam = st["fam"]
+    obs = list(H3_OBS[fam])
+    pts = list(H3_POINTS)
+    if st["ordering"] == "desc":
+        obs, pts = obs[::-1], pts[::-1]
+    elif st["ordering"] == "interleaved":
+        obs = obs[::2] + obs[1::2]
+        pts = pts[1::2] + pts[::2]
+    if st["tmc"] != 0:
+        obs = [o for o in obs if o.split("_")[0] not in ("g4", "gL", "g5")]  # no TMC for these kinds (explicit NotImplementedError)
+    card = [[o, pts] for o in obs]
+    st2 = {"h": "H1", "fam": fam, "pto": st["pto"], "tmc": st["tmc"], "card": card}
+    r = _h1(st2, calls=(1,))
+    for v in r["violations"]:
+        v["fp"]["h"] = "H3"
+        v["fpkey"]["h"] = "H3"
+    return r
+
+
+def _h1(st, calls=(1, 2)):
     tmc = st["tmc"]
     card = st["card"]
     obs_map = {o: [_pt(p, _is_xs(o)) for p in pl] for o, pl in card}
@@ -178,7 +220,8 @@ def _h1(st):
     r = yrun.runner(_cell(tmc, pto, fam), obs_map)
     viol = []
     digs = []
-    for call in (1, 2):
+    rejected = False
+    for call in calls:
         out = r.get_result()
         for o, pl in card:
             if len(out[o]) != len(pl):
